@@ -278,9 +278,30 @@ type srcEdit struct {
 // replacementEdits computes source edits that realise the //verif:replace table natively.
 func replacementEdits(ld *Loaded) (map[string][]srcEdit, error) {
 	edits := map[string][]srcEdit{}
+	keep := map[string][]string{}
 	if len(ld.replSrc) == 0 {
 		return edits, nil
 	}
+	defer func() {
+		for f, ks := range keep {
+			src, err := os.ReadFile(f)
+			if ovb, ok := ld.overlay[f]; ok {
+				src, err = ovb, nil
+			}
+			if err != nil {
+				continue
+			}
+			seen := map[string]bool{}
+			tail := "\n"
+			for _, k := range ks {
+				if !seen[k] {
+					seen[k] = true
+					tail += "var _ = " + k + "\n"
+				}
+			}
+			edits[f] = append(edits[f], srcEdit{len(src), len(src), tail})
+		}
+	}()
 	p := ld.mainPkg
 	fset := p.Fset
 	fullName := func(f *types.Func) string {
@@ -338,6 +359,13 @@ func replacementEdits(ld *Loaded) (map[string][]srcEdit, error) {
 			lp := fset.Position(call.Lparen).Offset
 			if sig.Recv() == nil {
 				edits[fname] = append(edits[fname], srcEdit{start, lp, h})
+				// keep the import used
+				if src, err := os.ReadFile(fname); err == nil {
+					if ovb, ok := ld.overlay[fname]; ok {
+						src = ovb
+					}
+					keep[fname] = append(keep[fname], string(src[start:lp]))
+				}
 			} else {
 				// x.M(args) => h(x, args)
 				xs := fset.Position(sel.X.Pos()).Offset
